@@ -655,7 +655,7 @@ func (s *c14Shadow) hsStr() string { return fmt.Sprintf("%d,%d,%d", s.term, s.vo
 // genMutation produces one mutation op (without the leading "par") for scope sc; safe = never erroring, no snapshot.
 func c14GenMutation(g *Gen, sh *c14Shadow, sc int, allowInvalid, safe bool) string {
 	for {
-		k := g.R.Pick(40, 10, 8, 10, 9, 4, 4, 5)
+		k := g.R.Pick(34, 9, 8, 13, 12, 5, 5, 10)
 		if safe && k != 0 && k != 2 && k != 3 {
 			k = 0
 		}
